@@ -135,8 +135,9 @@ def replay(case):
         _binary(g, tuple(case["s1"]), tuple(case["s2"]), st)
     else:
         _nary(g, st)
-    want = (case.get("site"), case.get("kind"))
-    return [v for v in st.violations if not case.get("site") or (v["site"], v["kind"]) == want]
+    # the recorded case names the call site; the kind of the violation found there may be more specific than the case's own label
+    same_kind = [v for v in st.violations if (v["site"], v["kind"]) == (case.get("site"), case.get("kind"))]
+    return same_kind or [v for v in st.violations if not case.get("site") or v["site"] == case.get("site")]
 
 
 class _Ctx:
